@@ -10,8 +10,9 @@ import (
 	"github.com/spf13/afero/mem"
 )
 
-// PosixMem is afero.MemMapFs with the five POSIX rules that MemMapFs lacks and that lock protocols
-// built on directories depend on: removing a non-empty directory fails with ENOTEMPTY, and creating
+// PosixMem is afero.MemMapFs with the POSIX rules that MemMapFs lacks and that lock and cache protocols
+// built on directories depend on (a sixth, added for the cache: rename(2) onto a non-empty directory fails with
+// ENOTEMPTY, onto an entry of the other kind with EISDIR / ENOTDIR, and a rename updates the time of both parents): removing a non-empty directory fails with ENOTEMPTY, and creating
 // an entry below a missing parent fails with ENOENT, and creating or removing an entry updates the
 // modification time of its parent directory, a directory cannot be opened for writing (EISDIR), and a handle on a removed directory lists nothing (ENOENT).
 // The lock scenarios of C01 are run on PosixMem AND on the real OS filesystem (ClockedOS) and must agree execution for execution.
@@ -44,6 +45,40 @@ func (p *PosixMem) Remove(name string) error {
 	err = p.MemMapFs.Remove(name)
 	if err == nil {
 		p.touchParent(name)
+	}
+	return err
+}
+
+// Rename follows rename(2) where MemMapFs does not: MemMapFs replaces whatever is at newname, leaving the entries of a
+// replaced directory behind as unreachable orphans.
+func (p *PosixMem) Rename(oldname, newname string) error {
+	ofi, oerr := p.MemMapFs.Stat(oldname)
+	if oerr == nil && filepath.Clean(oldname) != filepath.Clean(newname) {
+		if err := p.parentOK(newname); err != nil {
+			return &os.LinkError{Op: "rename", Old: oldname, New: newname, Err: syscall.ENOENT}
+		}
+		if nfi, err := p.MemMapFs.Stat(newname); err == nil {
+			switch {
+			case nfi.IsDir() && !ofi.IsDir():
+				return &os.LinkError{Op: "rename", Old: oldname, New: newname, Err: syscall.EISDIR}
+			case !nfi.IsDir() && ofi.IsDir():
+				return &os.LinkError{Op: "rename", Old: oldname, New: newname, Err: syscall.ENOTDIR}
+			case nfi.IsDir():
+				if f, err := p.MemMapFs.Open(newname); err == nil {
+					names, _ := f.Readdirnames(1)
+					_ = f.Close()
+					if len(names) > 0 {
+						return &os.LinkError{Op: "rename", Old: oldname, New: newname, Err: syscall.ENOTEMPTY}
+					}
+				}
+				_ = p.MemMapFs.Remove(newname) // an empty directory is replaced
+			}
+		}
+	}
+	err := p.MemMapFs.Rename(oldname, newname)
+	if err == nil {
+		p.touchParent(oldname)
+		p.touchParent(newname)
 	}
 	return err
 }
